@@ -4,6 +4,18 @@ Import ListNotations.
 From CF Require Import PyDict TranslatedImpCFDivisor.
 Open Scope Z_scope.
 
+(* chipfiring/CFConfig.py :: CFConfigMoves.__init__   reads [], writes ['self_q_vertex', 'self_v_tilde_vertices'], may raise *)
+Definition CFConfigMoves___init__ (divisor_graph_vertices : list nat) (divisor_degrees : dictZ) (q_name : nat) : pyres (nat * list nat) (nat * list nat) :=
+  let self_v_tilde_vertices := (@nil nat) in
+  let self_q_vertex := 0%nat in
+  let q_vertex_candidate := q_name in
+  if (negb (s_mem q_vertex_candidate divisor_graph_vertices)) then
+  PyExn (self_q_vertex, self_v_tilde_vertices)
+  else
+  let self_q_vertex := q_vertex_candidate in
+  let self_v_tilde_vertices := (filter (fun x_ => negb (Nat.eqb x_ self_q_vertex)) divisor_graph_vertices) in
+  PyOk (self_q_vertex, self_v_tilde_vertices).
+
 (* chipfiring/CFConfig.py :: CFConfigMoves.get_degree_at   reads ['self_q_vertex', 'self_v_tilde_vertices', 'self_divisor_degrees'], writes [], may raise *)
 Definition CFConfigMoves_get_degree_at (self_q_vertex : nat) (self_v_tilde_vertices : list nat) (self_divisor_degrees : dictZ) (vertex_name : nat) : pyres (unit) Z :=
   let v := vertex_name in
